@@ -372,6 +372,38 @@ pub fn run(mode: Mode, tier: Tier, seed: u64) -> i32 {
         total.merge(st);
     }
 
+    // ---- every statement start followed by every short character string -------------------
+    // (the token tree puts exactly one blank between tokens and nothing in front of a line end; what
+    // follows a statement the parser has stopped reading at is only reached by character strings)
+    {
+        let starts: Vec<&str> = vec![
+            "repeat(2)", "repeat(2) 0", "repeat (2", "loop(i,2)", "loop(i,2", "loop(i", "end loop", "end", "end while", "while(1)", "while(1", "let x = 1;", "let x = 1", "let x =", "let", "declare V = 1;", "declare V = 1", "declare",
+            "resetRandom;", "resetRandom", "bits(1,1)", "bits(1,1", "bits(1", "bits(", "0 0", "0", "(1) (", "(1", "ite(1,2", "random(", "signExt(1", "program", "program(", "program(1", "program(1)", "program (", "memory", "memory x(", "init", "init x = ", "def f(", "call f(", "C X", "Z z", "x", "#",
+        ];
+        let l2 = tier.pick(3usize, 4usize);
+        let per: u64 = (0..=l2 as u32).map(|k| 16u64.pow(k)).sum();
+        let st = par_range(&format!("every statement start of a list of {} (complete, truncated, unsupported) after the header 'A B', followed by every string of length <= {l2} over 16 characters", starts.len()), starts.len() as u64 * per, &deadline, |u, st| {
+            let start = starts[(u / per) as usize];
+            let mut idx = u % per;
+            let mut len = 0;
+            while idx >= 16u64.pow(len) {
+                idx -= 16u64.pow(len);
+                len += 1;
+            }
+            let mut s = format!("A B\n{start}");
+            for _ in 0..len {
+                s.push(CHARS[(idx % 16) as usize]);
+                idx /= 16;
+            }
+            thread_local! { static RENDERED3: std::cell::RefCell<HashSet<u64>> = std::cell::RefCell::new(HashSet::new()); }
+            RENDERED3.with(|r| {
+                check_text(mode, &s, (4 << 60) + u, &mut r.borrow_mut(), st);
+            });
+            st.witness("statement_start_followed_by_a_character_string");
+        });
+        total.merge(st);
+    }
+
     // ---- sizes and spellings beyond the enumerated alphabets ----------------------------
     {
         let texts = beyond_small_scope();
@@ -534,7 +566,7 @@ pub fn run(mode: Mode, tier: Tier, seed: u64) -> i32 {
     total.sample(|| json!({"token_tree_node": "A B\nloop ( a , 2 )\n0 0\nend loop", "note": "every node of the prefix tree is one text handed to from_str"}));
 
     let required: Vec<&'static str> = match mode {
-        Mode::C09 => vec!["accepted_text", "rejected_text", "diagnostic_rendered", "leaf_at_depth_bound", "subtree_pruned_parser_did_not_reach_end", "text_with_multibyte_characters", "text_beyond_the_small_scope"],
+        Mode::C09 => vec!["accepted_text", "rejected_text", "diagnostic_rendered", "leaf_at_depth_bound", "subtree_pruned_parser_did_not_reach_end", "text_with_multibyte_characters", "text_beyond_the_small_scope", "statement_start_followed_by_a_character_string"],
         Mode::C12 => vec!["grammar_breaking_edit", "truncated_program_rejected_by_reference", "edit_leaves_text_valid", "leaf_at_depth_bound", "subtree_pruned_parser_did_not_reach_end", "text_beyond_the_small_scope"],
     };
     let meta = CheckMeta {
